@@ -583,3 +583,136 @@ impl Engine for ShutdownEngine {
         out
     }
 }
+
+// ------------------------------------------------------------ C03: receive windows, h2 server fed by the reference peer
+
+pub fn gen_flow_server(tapes: &[Vec<u32>]) -> RawCase {
+    let mut t = Tape::new(&tapes[0]);
+    let mut cfg = plain_cfg();
+    if t.chance(1, 2) {
+        cfg.initial_window = Some(*t.pick(&[1000u32, 20000, 65535, 100_000]));
+    }
+    if t.chance(1, 3) {
+        cfg.conn_window = Some(*t.pick(&[100_000u32, 1 << 20]));
+    }
+    if t.chance(1, 4) {
+        cfg.max_concurrent = Some(*t.pick(&[1u32, 2]));
+    }
+    cfg.reset_dur_zero = t.chance(1, 3);
+    let mut script: Vec<PStep> = vec![PStep::Barrier];
+    let mut reqs: Vec<Req> = Vec::new();
+    let n = 1 + t.below(5);
+    let mut open: Vec<u32> = Vec::new();
+    for k in 0..n {
+        let id = 2 * k as u32 + 1;
+        let mut r = default_req(id);
+        r.req_reader = match t.weighted(&[3, 2, 2]) {
+            0 => Reader::Eager,
+            1 => Reader::Deferred(1 + t.below(20)),
+            _ => Reader::DropAfter(*t.pick(&[0usize, 1, 100, 5000])),
+        };
+        r.resp_delay = *t.pick(&[0usize, 0, 10, 200]);
+        if t.chance(1, 5) {
+            // the application resets the stream; the peer keeps sending for a while (legal race)
+            r.resp.end = EndKind::Reset { after: 0, code: 8 };
+            r.resp.chunks.clear();
+        }
+        reqs.push(r);
+        script.push(hdr(id, "POST", false));
+        open.push(id);
+    }
+    // interleaved DATA
+    let nd = 2 + t.below(14);
+    for _ in 0..nd {
+        if open.is_empty() {
+            break;
+        }
+        let idx = t.below(open.len());
+        let id = open[idx];
+        let pad = if t.chance(1, 3) { Some(*t.pick(&[0u8, 1, 50, 255])) } else { None };
+        let len = match t.weighted(&[3, 3, 2]) {
+            0 => 0,
+            1 => 1 + t.below(300),
+            _ => *t.pick(&[1000usize, 5000, 16384, 30000]),
+        };
+        match t.weighted(&[8, 2, 1]) {
+            0 => script.push(PStep::Data { stream: id, len, pad, end_stream: false, force: false }),
+            1 => {
+                script.push(PStep::Data { stream: id, len, pad, end_stream: true, force: false });
+                open.remove(idx);
+            }
+            _ => {
+                script.push(fr(Frame::Rst { stream: id, code: 8 }));
+                open.remove(idx);
+            }
+        }
+        if t.chance(1, 4) {
+            script.push(PStep::Yield(1 + t.below(10)));
+        }
+    }
+    for id in open {
+        script.push(PStep::Data { stream: id, len: 0, pad: None, end_stream: true, force: false });
+    }
+    script.push(PStep::Barrier);
+    script.push(PStep::Yield(60));
+    script.push(PStep::Barrier);
+    let spec = RawSpec { peer_settings: vec![], script, grant: Grant::Eager, close_at_end: false };
+    let mut b = base(&mut t, tapes, cfg, reqs);
+    let nops = t.below(3);
+    for _ in 0..nops {
+        let cmd = if t.bool() { ConnCmd::SetTargetWindow(*t.pick(&[65535u32, 70000, 200_000, 1 << 20])) } else { ConnCmd::SetInitialWindow(*t.pick(&[500u32, 10000, 65535, 200_000])) };
+        b.ops.push(ConnOp { side: Side::Server, after_events: t.below(25), cmd, gap: 0 });
+    }
+    RawCase { h2_side: Side::Server, base: b, spec, inject: None, probe_stream: 0, e_out_cap: None }
+}
+
+pub fn raw_c03(case: &RawCase, rr: &RawRun, tap: &Tap, out: &mut Outcome) {
+    use crate::oracles2::{check_c03, C03Ctx};
+    let sides = [case.h2_side];
+    let cfg = if case.h2_side == Side::Server { &case.base.scfg } else { &case.base.ccfg };
+    let ct = cfg.conn_window.unwrap_or(65535);
+    let iw = cfg.initial_window.unwrap_or(65535);
+    check_c03(&C03Ctx { tap, events: &rr.run.events, samples: &rr.run.samples, final_stats: &rr.run.stats, h2_sides: &sides, conn_target: [ct, ct], initial_window: [iw, iw] }, out);
+}
+
+pub struct FlowEngine;
+
+impl Engine for FlowEngine {
+    type Case = RawCase;
+    fn name(&self) -> &'static str {
+        "raw-flow-server"
+    }
+    fn tape_lens(&self) -> Vec<usize> {
+        vec![220, 301, 242]
+    }
+    fn gen(&self, tapes: &[Vec<u32>]) -> RawCase {
+        gen_flow_server(tapes)
+    }
+    fn rule(&self) -> String {
+        "h2 server receiving 1–5 uploads from the reference peer: DATA frames padded 0–255 / empty / padding-only, interleaved across streams, streams ended by END_STREAM or peer RST_STREAM, application readers eager / deferred / dropping the RecvStream after n bytes / resetting the stream while the peer keeps sending, refused streams (limit 1–2), local window reconfiguration (initial stream window, target connection window) at generated moments; oracle: sampled bookkeeping probe (available + in-flight = target; in-flight ≤ what the application still holds), advertised windows from the tap never above the configured sizes, wire-computed window = endpoint's belief; non-trivial = a discard path or padding or a reconfiguration occurred".into()
+    }
+    fn shrink_iters(&self) -> u32 {
+        400
+    }
+    fn run(&self, case: &RawCase) -> Outcome {
+        let rr = run_raw(case);
+        let an = analyse_raw(case, &rr);
+        let mut out = Outcome::default();
+        common_raw_oracles(case, &rr, &an, &mut out);
+        raw_c03(case, &rr, &an.tap, &mut out);
+        let padded = an.tap.frames.iter().any(|f| f.from != case.h2_side && matches!(&f.frame, Ok(Frame::Data { pad: Some(_), .. })));
+        let discard = rr.run.events.iter().any(|e| matches!(&e.api, Api::DroppedRecv | Api::SentReset { .. })) || an.tap.frames.iter().any(|f| matches!(&f.frame, Ok(Frame::Rst { .. })));
+        if padded {
+            out.label("padded-data");
+        }
+        if discard {
+            out.label("discard-path");
+        }
+        if !case.base.ops.is_empty() {
+            out.label("window-reconfigured");
+        }
+        out.nontrivial = padded || discard || !case.base.ops.is_empty();
+        out.note = format!("{} wire frames, end={:?}, script_done={}", an.tap.frames.len(), rr.run.end, rr.obs.script_done);
+        out
+    }
+}
